@@ -453,6 +453,7 @@ class _IsotxsNuclideIO:
         self._numGroups = self._getFileMetadata()["numGroups"]
         self._maxScatteringBlocks = self._getFileMetadata()["maxScatteringBlocks"]
         self._subblockingControl = self._getFileMetadata()["subblockingControl"]
+        self._partialScatter = {}
 
     def _getFileMetadata(self):
         return self._lib.isotxsMetadata
@@ -667,9 +668,12 @@ class _IsotxsNuclideIO:
             ju = min(ng, jup)
 
             metadata = self._metadata
-            indptr = [0]
-            indices = []
-            dataVals = []
+            indptr, indices, dataVals = [0], [], []
+            if scatter is None:
+                # reading: the rows of all sub-blocks of this block are collected before the matrix is built
+                indptr, indices, dataVals = self._partialScatter.setdefault(
+                    blockNumIndex, (indptr, indices, dataVals)
+                )
             for _scatterLoopOrder in range(lordn):
                 for g in range(jl - 1, ju):
                     jup = g + metadata["jj"][g, blockNumIndex]
@@ -686,8 +690,9 @@ class _IsotxsNuclideIO:
                         for xs in reversed(scatter[g, jdown:jup].tolist()):
                             record.rwFloat(xs)
 
-        if scatter is None:
-            # we're reading.
+        if scatter is None and m == nsblok:
+            # we're reading, and this was the last sub-block.
+            del self._partialScatter[blockNumIndex]
             scatter = sparse.csr_matrix(
                 (np.array(dataVals), indices, indptr), shape=(ng, ng)
             )
